@@ -61,6 +61,17 @@ void Mem::reset()
         bufs_.clear();
 }
 
+void Mem::release(const Mark &m)
+{
+        if (m.bump < bump_) {
+                mprotect(base_ + m.bump, bump_ - m.bump, PROT_NONE);
+                madvise(base_ + m.bump, bump_ - m.bump, MADV_DONTNEED);
+                bump_ = m.bump;
+        }
+        if (m.nbufs < bufs_.size())
+                bufs_.resize(m.nbufs);
+}
+
 uint8_t *Mem::alloc(size_t n, size_t align, Place pl, Rng *fill, const char *name, int role, size_t off)
 {
         if (align == 0)
